@@ -2,7 +2,8 @@
    Statements only; model in Sect/Sections.v, specification in Sect/SectionsSpec.v,
    proofs in Sect/SectionsProofs.v. *)
 From Coq Require Import List Arith Bool.
-From MV Require Import Base.Res Sect.Sections Sect.SectionsSpec Sect.SectionsProofs Sect.SectionsDoc.
+From MV Require Import Base.Res Sect.Sections Sect.SectionsSpec Sect.SectionsProofs Sect.SectionsDoc
+                       Gen.SectSrc Sect.SectSrcProofs.
 Import ListNotations.
 
 (* For every token tree whose heading tags are >= 1 (h1..h6; any nesting of containers, directives
@@ -129,6 +130,30 @@ Theorem C05_restore_after_titled_directive : forall ts s s',
   lvl s' = lvl s /\ hoff s' = hoff s /\ troot s' = troot s /\ cur s' = cur s.
 Proof. exact directive_with_titles_restores. Qed.
 Print Assumptions C05_restore_after_titled_directive.
+
+(* ---- round 3: the CODE regenerated from base.py on this run (Gen/SectSrc.v) ---- *)
+
+(* update_section_level_state, render_heading (section-or-rubric test, rubric level, the call and the
+   current_node assignment) and nested_render_text's _restore, as translated, equal the model *)
+Theorem C05_source_refines_model :
+  (forall s section level, update_section_level_state_src s section level = update_section_level_state s section level) /\
+  (forall tag s, render_heading_src tag s = render_heading tag s) /\
+  (forall rend tr off s, nested_render_text_src rend tr off s = nested_render_text rend tr off s).
+Proof.
+  split; [exact update_section_level_state_src_eq|]. split; [exact render_heading_src_eq | exact nested_render_text_src_eq].
+Qed.
+Print Assumptions C05_source_refines_model.
+
+(* the refinement theorem stated on the regenerated step: every sequence of levels >= 1 rendered with
+   render_heading_src never raises, ends with a well-formed level map, and yields exactly the edges and
+   warnings of the specification *)
+Theorem C05_sections_refine_spec_src : forall ls, Forall (fun l => 1 <= l) ls ->
+  exists s, run_levels_src ls = Ok s /\
+    filter non_warn (log s) = map (exp_edge ls) (seq 0 (length ls)) /\
+    warns (log s) = flat_map (exp_warn ls) (seq 0 (length ls)) /\
+    (sorted_keys (lvl s) /\ exists m', lvl s = (0, Doc) :: m').
+Proof. exact sections_refine_spec_src. Qed.
+Print Assumptions C05_sections_refine_spec_src.
 
 (* non-vacuity: levels 3 1 3 2 - heading 0 and 1 under the document, 2 and 3 under heading 1;
    warnings for heading 0 (document -> H3) and heading 2 (H1 -> H3) *)
